@@ -10,10 +10,45 @@ import numpy as np
 from hypothesis import strategies as st
 
 ASCII = "".join(chr(c) for c in range(0x20, 0x7F))
-short_text = st.text(alphabet=ASCII, max_size=12)
-any_text = st.one_of(short_text, short_text, st.just(""), st.text(alphabet=ASCII, min_size=13, max_size=300))
-fname_text = st.text(alphabet="abcdefghijklmnopqrstuvwxyzABCDEFGHIJKLMNOPQRSTUVWXYZ0123456789_-. ", min_size=1,
-                     max_size=40).map(lambda s: s.strip(" .") or "f").map(lambda s: s + ".sqw")
+# Non-ASCII text (a title "5 \u00c5", a sample "\u00b5-crystal", a path under /home/j\u00fcrgen): the format
+# document speaks of ASCII characters, so a writer may refuse such strings (ValueError) -- but a file it
+# does produce must still be a consistent container whose strings read back as supplied.
+NONASCII = "\u00c5\u00b5\u00e9\u00fc\u00f1\u03a9\u03bb\u4e2d\u00a0\U0001f600"
+_ascii_short = st.text(alphabet=ASCII, max_size=12)
+# about one string in 25 is non-ASCII: a case holds 5..40 strings, and most cases should stay pure ASCII
+short_text = st.integers(0, 24).flatmap(
+    lambda k: st.text(alphabet=ASCII + NONASCII, max_size=12) if k == 0 else _ascii_short)
+any_text = st.one_of(short_text, short_text, st.just(""), st.text(alphabet=ASCII, min_size=13, max_size=300),
+                     st.integers(0, 5).flatmap(
+                         lambda k: st.text(alphabet=ASCII + NONASCII, min_size=1, max_size=40) if k == 0 else _ascii_short))
+_FN = "abcdefghijklmnopqrstuvwxyzABCDEFGHIJKLMNOPQRSTUVWXYZ0123456789_-. "
+fname_text = st.one_of(*([st.text(alphabet=_FN, min_size=1, max_size=40)] * 5),
+                       st.text(alphabet=_FN + "\u00fc\u00e9\u00c5\u4e2d", min_size=1, max_size=20)
+                       ).map(lambda s: s.strip(" .") or "f").map(lambda s: s + ".sqw")
+
+
+def has_non_ascii(obj) -> bool:
+    if isinstance(obj, str):
+        return not obj.isascii()
+    if isinstance(obj, dict):
+        return any(has_non_ascii(v) for v in obj.values())
+    if isinstance(obj, (list, tuple)):
+        return any(has_non_ascii(v) for v in obj)
+    return False
+
+
+def used_non_ascii(case, calls=None) -> bool:
+    """Non-ASCII text in a part of the case that the builder program actually uses."""
+    calls = set(case["calls"] if calls is None else calls)
+    parts = [case["title"]]
+    if case["target"] == "file":
+        parts.append(case["fname"])
+    if "pix" in calls:
+        parts.append(case.get("runs"))
+    for c, key in (("instrument", "instrument"), ("sample", "sample"), ("dnd", "dnd")):
+        if c in calls:
+            parts.append(case.get(key))
+    return has_non_ascii(parts)
 
 finite = st.floats(allow_nan=False, allow_infinity=False, min_value=-1e30, max_value=1e30)
 special = st.sampled_from([0.0, -0.0, 1.0, -1.0, 1e-40, -1e-40, 1e30, -1e30, 16777217.0, 0.1, 1 / 3, 1e-46, 3.4e30])
@@ -258,8 +293,21 @@ class Written:
     """Result of running a builder program: the bytes, the path (or None) and the inputs used."""
 
 
+class Refused(Exception):
+    """The builder refused non-ASCII text with a ValueError (allowed: the format is ASCII)."""
+
+
 def write(case, calls=None, tmpdir=None):
     """Run the builder program of `case` (or the given permutation of its calls)."""
+    try:
+        return _write(case, calls, tmpdir)
+    except ValueError as e:             # UnicodeEncodeError is a ValueError
+        if used_non_ascii(case, calls):
+            raise Refused(str(e)) from e
+        raise
+
+
+def _write(case, calls=None, tmpdir=None):
     import scipp as sc
     from scippneutron.io.sqw import Sqw, SqwIXNullInstrument, SqwIXSample, SqwIXSource
 
@@ -333,6 +381,8 @@ def labels_of(case):
         labs.append("repeated-call")
     if len(case["title"]) > 12:
         labs.append("long-title")
+    if used_non_ascii(case):
+        labs.append("non-ascii-text")
     if "pix" in case:
         p = case["pix"]
         c = 8192 if p["chunk"] is None else p["chunk"]
